@@ -1,5 +1,7 @@
 """Unit TM (C02, C03, C04): TransactionManager::{commit, abort, begin_with_isolation, record_write, record_read, state, start_epoch}
 extracted from crates/grafeo-engine/src/transaction/manager.rs with the lock layer dropped (rule E3, stated)."""
+import re
+
 from vlib import Unit
 
 SRC = 'crates/grafeo-engine/src/transaction/manager.rs'
@@ -210,12 +212,12 @@ def build(repo):
     f = u.method(SRC, 'TransactionManager', 'commit').D1().ret('res')
     f.sub('E3', '    let mut txns = self.transactions.write();\n', '')
     f.sub('E3', '    let committed = self.committed_epochs.read();\n', '')
-    f.sub('E3', '    drop(committed);\n', '')
+    f.resub_opt('E3', re.escape('    drop(committed);\n'), '')
     f.resub('E3', r'\btxns\b', 'self.transactions')
     f.resub('E3', r'\bcommitted\b(?!_)', 'self.committed_epochs')
-    f.sub('E3', 'self.committed_epochs.write().insert(', 'self.committed_epochs.insert(')
+    f.resub_opt('E3', re.escape('self.committed_epochs.write().insert('), 'self.committed_epochs.insert(')
     f.sub('E3', 'pub fn commit(&self,', 'pub fn commit(&mut self,')
-    f.sub('E2', 'self.current_epoch.fetch_add(1, Ordering::SeqCst)', 'fetch_add_u64(&mut self.current_epoch, 1)')
+    f.resub_opt('E2', re.escape('self.current_epoch.fetch_add(1, Ordering::SeqCst)'), 'fetch_add_u64(&mut self.current_epoch, 1)')
     f.R4().R2(['our_write_set', 'our_read_set']).R6().R5()
     T0 = 'old(self).transactions@'
     C0 = 'old(self).committed_epochs@'
